@@ -141,6 +141,33 @@ def h_symtab(ctx):
         ctx.check_eq('symtab/get_symbol(n)', [s['st_value'], s['st_size'], s['st_name']], [syms[j]['st_value'], syms[j]['st_size'], syms[j]['st_name']])
 
 
+def h_text(ctx):
+    """non-ASCII (UTF-8) symbol names: enumeration and lookup by name (ground)"""
+    cfg = ctx.cfg
+    cls, little = cfg['elfclass'], cfg['little']
+    SEC = ctx.lib('elf.sections')
+    names = ['', 'gr\u00fc\u00dfe', '\u65e5\u672c', 'f', 'gr\u00fc\u00dfe']
+    tab, offs = [0], {'': 0}
+    for nm in names[1:]:
+        if nm not in offs:
+            offs[nm] = len(tab)
+            tab += list(nm.encode('utf-8')) + [0]
+    symsz = L.sizeof('SYM', cls)
+    image = list(tab)
+    symoff = len(image)
+    for i, nm in enumerate(names):
+        image += L.encode('SYM', cls, little, dict(st_name=offs[nm], st_value=0x10 + i, st_size=0, st_info=0x12, st_other=0, st_shndx=1))
+    elf = _Elf(ctx, ctx.stream(image), cls, little)
+    strtab = SEC.StringTableSection(_shdr(sh_type='SHT_STRTAB', sh_offset=0, sh_size=len(tab)), '.strtab', elf)
+    symtab = SEC.SymbolTableSection(_shdr(sh_offset=symoff, sh_size=len(names) * symsz, sh_entsize=symsz), '.symtab', elf, strtab)
+    ctx.outcome('ok')
+    ctx.check_eq('text/names', [s.name for s in ctx.drain(symtab.iter_symbols())], names)
+    for q in names[1:4]:
+        r = symtab.get_symbol_by_name(q)
+        ctx.check_eq('text/by-name/' + q.encode('unicode_escape').decode(), None if r is None else [x['st_value'] for x in r], [0x10 + i for i, n in enumerate(names) if n == q])
+    ctx.check('text/by-name/absent', symtab.get_symbol_by_name('gr\u00fc') is None)
+
+
 def h_by_name(ctx):
     cfg = ctx.cfg
     elf, symtab, syms = _mk_symtab(ctx, dict(cfg, symenum=-1), cfg['symnames'])
@@ -353,8 +380,12 @@ def h_gnu_lookup(ctx):
     chains = [ctx.uint('chain%d' % i, 32) for i in range(n)]
     bidx = [hv % NB for hv in hs]
     A = []
-    for a, b in zip(bidx, bidx[1:]):
-        A.append(a <= b)
+    # the symbols of one bucket are contiguous (one chain); the chains may follow each other in any bucket order (linkers sort
+    # them by bucket, the format does not require it)
+    for i in range(n):
+        for k in range(i + 2, n):
+            for j in range(i + 1, k):
+                A.append(ctx.implies(bidx[i] == bidx[k], bidx[j] == bidx[i]))
     for i in range(n):
         A.append((chains[i] | 1) == (hs[i] | 1))
         last = True if i == n - 1 else (bidx[i] != bidx[i + 1])
@@ -449,6 +480,8 @@ HARNESSES = [
       desc='SUNWSyminfoTableSection: entries 1..n in order with names from the linked symbol table'),
     H('h3_4_by_name', h_by_name, lambda tier: [dict(elfclass=c, little=l, k=3, symnames=(2 if tier == 'quick' else 3), warm=w) for c, l in ((64, True), (32, False)) for w in (False, True)], expect=('ok',),
       desc='get_symbol_by_name with symbolic st_name offsets (duplicates and suffix names arise): exactly the symbols bearing the name, None otherwise, also after the map was built by an earlier query'),
+    H('h3_4_text', h_text, lambda tier: [dict(elfclass=c, little=l) for c, l in ((64, True), (32, False))], expect=('ok',), decoy=-1,
+      desc='symbol names with multi-byte UTF-8 characters: enumeration and lookup by name (ground)'),
     H('h3_5_hashfn', h_hashfn, lambda tier: [dict(fn=f, n=n) for f in ('elf', 'gnu') for n in range(0, (9 if tier == 'quick' else 13))], expect=('ok',),
       desc='elf_hash equals the gABI routine and gnu_hash equals h*33+c, both in 32-bit wrapping arithmetic, for every name of n symbolic non-NUL bytes'),
     H('h3_5_hashfn_str', h_hashfn_str, lambda tier: [dict()], expect=('ok',), desc='str names hash as their bytes; known values'),
